@@ -3,10 +3,13 @@ package fsm_test
 // C17 - Channel migration cutover is fenced and irreversible.
 //
 // Explicit-state BFS (engine mc) over the real slot state machine (pkg/slot/fsm) on a real
-// metadb.DB: every sequence of channel-migration commands up to the depth bound, for two
-// tasks (T1 leader transfer 1->2, T2 replica replace 3->4) on one channel, with merging on the
-// state read back through the metadb API (both task rows + the runtime meta row + oracle
-// bookkeeping). Every transition is one real ApplyBatch. Requests are built from the rows
+// metadb.DB: every sequence of channel-migration commands up to the depth bound, for three
+// task ids (T1 leader transfer 1->2, T2 replica replace 3->4, T3 = the transfer 1->2 re-created
+// under a fresh id) on one channel, with merging on the state read back through the metadb API
+// (all task rows + the runtime meta row + both active-index answers + oracle bookkeeping).
+// The task-only bookkeeping commands (claim, advance) are also sent for tasks that are already
+// terminal while a successor task is active: the store accepts them, so they belong to the
+// command language. Every transition is one real ApplyBatch. Requests are built from the rows
 // read back before the command (fresh) or with exactly one stale field.
 //
 // Each explored instance owns one fresh hash slot (and the physical slot id hashSlot+1) of a
@@ -136,6 +139,7 @@ type c17View struct {
 	Tasks  map[string]metadb.ChannelMigrationTask // existing task rows by id
 	Meta   metadb.ChannelRuntimeMeta
 	Active string // id returned by GetActiveChannelMigrationTask ("" = none)
+	Listed []string // ids returned by ListActiveChannelMigrationTasks, in the order returned
 }
 
 type c17Stats struct {
@@ -145,6 +149,10 @@ type c17Stats struct {
 	naturalStaleRefused                                                 atomic.Int64
 	abortOK, abortAfterCutoverRefused, createRefusedActive, foreignTries atomic.Int64
 	fenceSet, fenceCleared, fenceReset, gcDeleted, learnerAdded          atomic.Int64
+	// bookkeeping commands on terminal tasks (index 0 claim, 1 adv, 2 fail): accepted while another task is active
+	terminalTouchedWithSuccessor                                        [3]atomic.Int64
+	terminalTouchedAlone, reviveOK, reviveRefusedActive                 atomic.Int64
+	createRefusedActiveBesideTerminal, createOKBesideTouchedTerminal    atomic.Int64
 }
 
 // c17Space is the key namespace (one hash slot of one arena) shared by an instance and the
@@ -168,7 +176,17 @@ type c17Inst struct {
 	cut   map[string]bool // task id -> its cutover (commit / promote) was accepted in this incarnation
 }
 
-var c17TaskIDs = []string{"T1", "T2"}
+var c17TaskIDs = []string{"T1", "T2", "T3"}
+
+// c17LT: the task is a leader transfer 1->2 (T1, and T3 = the same transfer re-created under a
+// fresh id); T2 is the replica replace 3->4.
+func c17LT(id string) bool { return id != "T2" }
+
+// Bounds on the bookkeeping commands sent for a task that is already terminal (set per tier).
+var (
+	c17TouchBound int64 = 1     // rewrites per terminal incarnation of a task (UpdatedAtMS - CompletedAtMS)
+	c17TouchAlone       = false // also generate them while no other task of the channel is active
+)
 
 func c17SeedMeta() metadb.ChannelRuntimeMeta {
 	return metadb.ChannelRuntimeMeta{ChannelID: c17Chan, ChannelType: c17ChanType, ChannelEpoch: 1, LeaderEpoch: 1,
@@ -178,7 +196,7 @@ func c17SeedMeta() metadb.ChannelRuntimeMeta {
 func c17NewTask(id string) metadb.ChannelMigrationTask {
 	t := metadb.ChannelMigrationTask{TaskID: id, Status: metadb.ChannelMigrationStatusRunning, ChannelID: c17Chan, ChannelType: c17ChanType,
 		BaseChannelEpoch: 1, BaseLeaderEpoch: 1, CreatedAtMS: 100, UpdatedAtMS: 100}
-	if id == "T1" {
+	if c17LT(id) {
 		t.Kind, t.Phase = metadb.ChannelMigrationKindLeaderTransfer, metadb.ChannelMigrationPhaseWriteFence
 		t.SourceNode, t.TargetNode, t.DesiredLeader = 1, 2, 2
 	} else {
@@ -275,23 +293,25 @@ func (in *c17Inst) read() c17View {
 	if ok {
 		v.Active = act.TaskID
 	}
+	listed, err := in.sp.shard.ListActiveChannelMigrationTasks(c17Ctx, 16)
+	if err != nil {
+		panic(fmt.Sprintf("c17 harness: ListActiveChannelMigrationTasks: %v", err))
+	}
+	for _, t := range listed {
+		v.Listed = append(v.Listed, t.ChannelID+"/"+t.TaskID)
+	}
 	return v
 }
 
 func (in *c17Inst) Canon() string {
 	type canon struct {
-		T1, T2 *metadb.ChannelMigrationTask
+		Tasks  map[string]metadb.ChannelMigrationTask // encoding/json writes map keys in sorted order
 		Meta   metadb.ChannelRuntimeMeta
 		Active string
+		Listed []string
 		Cut    []string
 	}
-	c := canon{Meta: in.v.Meta, Active: in.v.Active}
-	if t, ok := in.v.Tasks["T1"]; ok {
-		c.T1 = &t
-	}
-	if t, ok := in.v.Tasks["T2"]; ok {
-		c.T2 = &t
-	}
+	c := canon{Tasks: in.v.Tasks, Meta: in.v.Meta, Active: in.v.Active, Listed: in.v.Listed}
 	for id, b := range in.cut {
 		if b {
 			c.Cut = append(c.Cut, id)
@@ -310,14 +330,14 @@ func (in *c17Inst) Canon() string {
 var c17StaleFields = []string{"fv", "ce", "le", "ld"}
 
 func c17ProofPhase(t metadb.ChannelMigrationTask) bool { // phases from which the next advance records the drain proof
-	if t.TaskID == "T1" {
+	if c17LT(t.TaskID) {
 		return t.Phase == metadb.ChannelMigrationPhaseDrainLeader || t.Phase == metadb.ChannelMigrationPhaseCommitLeaderMeta
 	}
 	return t.Phase == metadb.ChannelMigrationPhaseCutoverFence || t.Phase == metadb.ChannelMigrationPhasePromoteAndRemove
 }
 
 func c17CutoverPhase(t metadb.ChannelMigrationTask) bool {
-	if t.TaskID == "T1" {
+	if c17LT(t.TaskID) {
 		return t.Phase == metadb.ChannelMigrationPhaseCommitLeaderMeta
 	}
 	return t.Phase == metadb.ChannelMigrationPhasePromoteAndRemove
@@ -327,36 +347,58 @@ func (in *c17Inst) Events() []string {
 	var evs []string
 	for _, id := range c17TaskIDs {
 		t, ok := in.v.Tasks[id]
+		if _, t1 := in.v.Tasks["T1"]; !ok && id == "T3" && !t1 {
+			continue // T3 is T1 under a fresh id: creating it while no row T1 exists is the same history up to renaming
+		}
+		if !ok && id == "T3" {
+			evs = append(evs, "create:T3") // the guarded creates and the abort of an absent task are exercised with T1 / T2
+			continue
+		}
 		if !ok {
 			evs = append(evs, "create:"+id, "gcreate:"+id+":fresh", "gcreate:"+id+":stale-le", "gcreate:"+id+":stale-fv", "abort:"+id)
 			continue
 		}
 		evs = append(evs, "create:"+id)
+		// The task-only bookkeeping commands (claim, advance) carry no terminal-state check in the
+		// store, so they stay in the alphabet after the task became terminal: claim (first claim
+		// or renewal), fail, adv (every variant; on a terminal task it keeps status and phase)
+		// and revive (an advance back to Running).
 		if t.IsActive() {
 			if t.OwnerNodeID != 1 {
 				evs = append(evs, "claim:"+id)
 			}
 			evs = append(evs, "fail:"+id)
+			if _, ok := c17NextPhase(t); ok {
+				evs = append(evs, "adv:"+id+":fresh")
+			}
 		}
-		if _, ok := c17NextPhase(t); ok {
-			evs = append(evs, "adv:"+id+":fresh")
+		successor := false // another task of the channel is active
+		for oid, o := range in.v.Tasks {
+			successor = successor || (oid != id && o.IsActive())
+		}
+		touch := !t.IsActive() && (successor || c17TouchAlone) && t.UpdatedAtMS-t.CompletedAtMS < c17TouchBound
+		if touch {
+			evs = append(evs, "claim:"+id, "adv:"+id+":fresh", "fail:"+id)
+		}
+		if !t.IsActive() && (successor || touch) {
+			evs = append(evs, "revive:"+id)
 		}
 		evs = append(evs, "setfence:"+id, "resetfence:"+id, "clearfence:"+id)
-		if id == "T1" {
-			evs = append(evs, "commit:T1:fresh")
+		if c17LT(id) {
+			evs = append(evs, "commit:"+id+":fresh")
 		} else {
 			evs = append(evs, "addlearner:T2", "promote:T2:fresh")
 		}
 		evs = append(evs, "abort:"+id)
-		if c17ProofPhase(t) {
+		if c17ProofPhase(t) && (t.IsActive() || touch) {
 			for _, f := range c17StaleFields {
 				evs = append(evs, "adv:"+id+":stale-"+f)
 			}
 		}
 		if c17CutoverPhase(t) {
 			for _, f := range c17StaleFields {
-				if id == "T1" {
-					evs = append(evs, "commit:T1:guard-"+f)
+				if c17LT(id) {
+					evs = append(evs, "commit:"+id+":guard-"+f)
 				} else {
 					evs = append(evs, "promote:T2:guard-"+f)
 				}
@@ -375,7 +417,7 @@ func c17NextPhase(t metadb.ChannelMigrationTask) (metadb.ChannelMigrationPhase, 
 	if !t.IsActive() {
 		return 0, false
 	}
-	if t.TaskID == "T1" {
+	if c17LT(t.TaskID) {
 		switch t.Phase {
 		case metadb.ChannelMigrationPhaseDrainLeader, metadb.ChannelMigrationPhaseCommitLeaderMeta:
 			return metadb.ChannelMigrationPhaseCommitLeaderMeta, true // (re-)drain, record the proof
@@ -495,21 +537,35 @@ func (in *c17Inst) encode(evl string) (data []byte, id, op, variant string) {
 	case "claim":
 		data = fsm.EncodeClaimChannelMigrationTaskCommand(metadb.ChannelMigrationTaskClaim{Guard: g, Status: t.Status, Phase: t.Phase, OwnerNodeID: 1, OwnerLeaseUntilMS: 900, NowMS: 150, UpdatedAtMS: up})
 	case "fail":
-		data = fsm.EncodeAdvanceChannelMigrationTaskCommand(metadb.ChannelMigrationTaskAdvance{Guard: g, Status: metadb.ChannelMigrationStatusFailed, Phase: t.Phase, UpdatedAtMS: up, CompletedAtMS: up, LastError: "failed"})
+		done := up
+		if t.TaskID != "" && !t.IsActive() {
+			done = t.CompletedAtMS // already terminal: the completion time is kept
+		}
+		data = fsm.EncodeAdvanceChannelMigrationTaskCommand(metadb.ChannelMigrationTaskAdvance{Guard: g, Status: metadb.ChannelMigrationStatusFailed, Phase: t.Phase, UpdatedAtMS: up, CompletedAtMS: done, LastError: "failed"})
+	case "revive":
+		// an advance that puts a terminal task back to Running in the phase it stopped in
+		data = fsm.EncodeAdvanceChannelMigrationTaskCommand(metadb.ChannelMigrationTaskAdvance{Guard: g, Status: run, Phase: t.Phase, UpdatedAtMS: up})
 	case "adv":
 		next, ok := c17NextPhase(t)
 		if !ok {
 			next = t.Phase
 		}
 		adv := metadb.ChannelMigrationTaskAdvance{Guard: g, Status: run, Phase: next, UpdatedAtMS: up}
-		if next == metadb.ChannelMigrationPhaseCommitLeaderMeta || next == metadb.ChannelMigrationPhasePromoteAndRemove {
+		if t.TaskID != "" && !t.IsActive() {
+			// bookkeeping on a task that is already terminal: status, phase and completion time are kept
+			adv.Status, adv.CompletedAtMS, adv.LastError = t.Status, t.CompletedAtMS, t.LastError
+			if c17ProofPhase(t) {
+				adv.CutoverProof = c17Proof(t, m, stale)
+				adv.Progress = metadb.ChannelMigrationProgress{LeaderLEO: 10, LeaderHW: 10}
+			}
+		} else if next == metadb.ChannelMigrationPhaseCommitLeaderMeta || next == metadb.ChannelMigrationPhasePromoteAndRemove {
 			adv.CutoverProof = c17Proof(t, m, stale)
 			adv.Progress = metadb.ChannelMigrationProgress{LeaderLEO: 10, LeaderHW: 10}
 		}
 		data = fsm.EncodeAdvanceChannelMigrationTaskCommand(adv)
 	case "setfence":
 		phase := t.Phase
-		if id == "T1" && t.Phase == metadb.ChannelMigrationPhaseWriteFence {
+		if c17LT(id) && t.Phase == metadb.ChannelMigrationPhaseWriteFence {
 			phase = metadb.ChannelMigrationPhaseDrainLeader
 		}
 		if id == "T2" && t.Phase == metadb.ChannelMigrationPhaseWarmCatchUp {
@@ -688,21 +744,56 @@ func (in *c17Inst) Apply(evl string, _ *mc.Env) (string, error) {
 
 	// ---- task-only commands never touch the runtime meta row
 	switch op {
-	case "create", "gcreate", "claim", "fail", "adv", "gc":
+	case "create", "gcreate", "claim", "fail", "adv", "revive", "gc":
 		if !reflect.DeepEqual(pre.Meta, post.Meta) {
 			return obs, mc.Violatef("C17:task-only-command-changed-runtime-meta:"+op, "%s changed the runtime meta row", evl)
 		}
 	}
-	if (op == "create" || op == "gcreate") && !preHad {
-		other := "T2"
-		if id == "T2" {
-			other = "T1"
+	otherActive, otherTouchedTerminal := false, false
+	for oid, o := range pre.Tasks {
+		if oid == id {
+			continue
 		}
-		if o, ok := pre.Tasks[other]; ok && o.IsActive() && !postHas {
+		if o.IsActive() {
+			otherActive = true
+		} else {
+			if o.UpdatedAtMS > o.CompletedAtMS { // rewritten by a bookkeeping command after it became terminal
+				otherTouchedTerminal = true
+			}
+		}
+	}
+	if (op == "create" || op == "gcreate") && !preHad {
+		if otherActive && !postHas {
 			in.st.createRefusedActive.Add(1)
+			if otherTouchedTerminal {
+				in.st.createRefusedActiveBesideTerminal.Add(1)
+			}
+		}
+		if !otherActive && otherTouchedTerminal && postHas {
+			in.st.createOKBesideTouchedTerminal.Add(1)
 		}
 		if op == "gcreate" && variant != "fresh" && postHas {
 			return obs, mc.Violatef("C17:guarded-create-with-stale-guard:"+variant, "%s created the task although its runtime guard is stale", evl)
+		}
+	}
+	// bookkeeping commands on a task that is already terminal (vacuity counters; the state oracles are in Check)
+	if preHad && !preT.IsActive() {
+		switch op {
+		case "claim", "adv", "fail":
+			if changed && postHas && !postT.IsActive() {
+				if otherActive {
+					in.st.terminalTouchedWithSuccessor[map[string]int{"claim": 0, "adv": 1, "fail": 2}[op]].Add(1)
+				} else {
+					in.st.terminalTouchedAlone.Add(1)
+				}
+			}
+		case "revive":
+			switch {
+			case postHas && postT.IsActive():
+				in.st.reviveOK.Add(1)
+			case otherActive && !changed:
+				in.st.reviveRefusedActive.Add(1)
+			}
 		}
 	}
 	// bookkeeping for the vacuity guards
@@ -739,7 +830,7 @@ func (in *c17Inst) Check() error {
 			active = append(active, id)
 		}
 	}
-	if len(v.Tasks) > 2 {
+	if len(v.Tasks) > len(c17TaskIDs) {
 		return mc.Violatef("C17:unexpected-task-rows", "%d task rows", len(v.Tasks))
 	}
 	if len(active) > 1 {
@@ -750,6 +841,14 @@ func (in *c17Inst) Check() error {
 	}
 	if len(active) == 0 && v.Active != "" {
 		return mc.Violatef("C17:active-index-returns-terminal-task", "no task is active but GetActiveChannelMigrationTask returns %q", v.Active)
+	}
+	// the active listing of the hash slot is exactly the set of non-terminal task rows (one channel: at most one entry)
+	var want []string
+	for _, id := range active {
+		want = append(want, c17Chan+"/"+id)
+	}
+	if !reflect.DeepEqual(want, v.Listed) {
+		return mc.Violatef("C17:active-list-disagrees-with-task-rows", "non-terminal task rows %v but ListActiveChannelMigrationTasks returns %v", want, v.Listed)
 	}
 	for id, c := range in.cut {
 		if t, ok := v.Tasks[id]; c && ok && t.Status == metadb.ChannelMigrationStatusAborted {
@@ -782,11 +881,25 @@ func (in *c17Inst) Check() error {
 	if m.WriteFenceToken != "" {
 		// a fence always names a task row that still carries it (a terminal owner may leave an orphan fence behind; that is
 		// not forbidden by the property, so only the "names a known task" part is checked)
-		if _, ok := v.Tasks[m.WriteFenceToken]; !ok && m.WriteFenceToken != "T1" && m.WriteFenceToken != "T2" {
+		if _, ok := v.Tasks[m.WriteFenceToken]; !ok && m.WriteFenceToken != "T1" && m.WriteFenceToken != "T2" && m.WriteFenceToken != "T3" {
 			return mc.Violatef("C17:fence-names-unknown-task", "fence token %q", m.WriteFenceToken)
 		}
 	}
 	return nil
+}
+
+// c17ReviveAccepted runs one scripted history (a vacuity guard, not a deciding step): the revive
+// command of the alphabet is accepted by the store when no other task is active.
+func c17ReviveAccepted() bool {
+	in := c17New(&c17Stats{}).(*c17Inst)
+	defer in.Close()
+	for _, e := range []string{"create:T1", "fail:T1", "revive:T1"} {
+		if _, err := in.Apply(e, nil); err != nil {
+			return false
+		}
+	}
+	t, ok := in.v.Tasks["T1"]
+	return ok && t.IsActive() && in.v.Active == "T1"
 }
 
 func TestVerifC17(t *testing.T) {
@@ -799,14 +912,18 @@ func TestVerifC17(t *testing.T) {
 		}
 	}()
 	st := &c17Stats{}
+	c17TouchBound, c17TouchAlone = ev.Pick(r, int64(1), int64(2)), r.Thorough()
 	res := mc.Run(r, mc.System{
 		Name:      "migration-commands",
 		New:       func() mc.Instance { return c17New(st) },
 		MaxDepth:  ev.Pick(r, 7, 10),
 		MaxStates: ev.Pick(r, int64(200000), int64(3000000)),
-		Bounds: map[string]any{"tasks": "T1 leader transfer 1->2 (created in WriteFence), T2 replica replace 3->4 (created in AddLearner)", "channels": 1,
-			"stale_fields": c17StaleFields, "seed_meta": "epoch 1/1, replicas=ISR={1,2,3}, leader 1, MinISR 2"},
-		Note: "merging on both task rows + runtime meta row + GetActive answer (read back through the metadb API) + cutover bookkeeping; requests are rebuilt from the rows read back, so the canonical state determines every future request",
+		Bounds: map[string]any{"tasks": "T1 leader transfer 1->2 (created in WriteFence), T2 replica replace 3->4 (created in AddLearner), T3 leader transfer 1->2 under a fresh id (created in WriteFence)", "channels": 1,
+			"stale_fields": c17StaleFields,
+			"terminal_task_bookkeeping": fmt.Sprintf("claim / adv (all variants) / fail on a terminal task: at most %d per terminal incarnation, generated while another task is active%s; revive (advance back to Running) while another task is active%s",
+				c17TouchBound, map[bool]string{false: "", true: " and while none is"}[c17TouchAlone], map[bool]string{false: "", true: " and, within the same bound, while none is"}[c17TouchAlone]),
+			"third_task_id": "T3 is created (plain create only) only while the row T1 exists (same transfer under a fresh id); once it exists it has the full alphabet of T1", "seed_meta": "epoch 1/1, replicas=ISR={1,2,3}, leader 1, MinISR 2"},
+		Note: "merging on all task rows + runtime meta row + GetActive and ListActive answers (read back through the metadb API) + cutover bookkeeping; requests are rebuilt from the rows read back, so the canonical state determines every future request",
 	})
 	if r.Replay() != nil {
 		return
@@ -828,6 +945,17 @@ func TestVerifC17(t *testing.T) {
 	g("fence-cleared", st.fenceCleared.Load(), 1)
 	g("fence-reset", st.fenceReset.Load(), 1)
 	g("gc-deleted-task", st.gcDeleted.Load(), 1)
+	g("claim-accepted-on-terminal-task-while-successor-active", st.terminalTouchedWithSuccessor[0].Load(), 1)
+	g("advance-accepted-on-terminal-task-while-successor-active", st.terminalTouchedWithSuccessor[1].Load(), 1)
+	g("fail-accepted-on-terminal-task-while-successor-active", st.terminalTouchedWithSuccessor[2].Load(), 1)
+	if c17TouchAlone {
+		g("bookkeeping-accepted-on-terminal-task-without-successor", st.terminalTouchedAlone.Load(), 1)
+		g("revive-of-terminal-task-accepted-when-nothing-is-active", st.reviveOK.Load(), 1)
+	}
+	r.Guard("revive-command-is-well-formed", c17ReviveAccepted(), "create:T1 ; fail:T1 ; revive:T1 must leave T1 active (otherwise the refusals counted below say nothing)")
+	g("third-create-refused-while-successor-active-beside-touched-terminal-task", st.createRefusedActiveBesideTerminal.Load(), 1)
+	g("create-accepted-beside-touched-terminal-task", st.createOKBesideTouchedTerminal.Load(), 1)
+	g("revive-of-terminal-task-refused-while-successor-active", st.reviveRefusedActive.Load(), 1)
 	g("learner-added", st.learnerAdded.Load(), 1)
 	r.Guard("state-space-nontrivial", res.States >= 300, "states=%d", res.States)
 	r.Assume("\"aborted\" means an accepted AbortChannelMigration command; an Advance that marks a task Failed is the executor's failure path and is part of the alphabet (fail:<task>), an Advance to Aborted is not generated")
